@@ -92,6 +92,14 @@ func semRun(c *Ctx, flavour string, n int, prop string) {
 		implNo := runPlain(bcNo, ugo.Map{}, args)
 		cls := strings.SplitN(strings.TrimPrefix(implNo, "out="), " ", 2)[0]
 		c.Count("outcome:" + cls)
+		if strings.HasPrefix(implNo, "out=timeout") {
+			c.Count("skipped:step-limit")
+			continue
+		}
+		if strings.Contains(implNo, codec.Cyclic) {
+			c.Count("skipped:cyclic-value")
+			continue
+		}
 		if mapOrderSensitive(implNo) {
 			// text derived from Go map iteration order (String() of a map with several keys)
 			c.Count("skipped:map-order")
@@ -116,6 +124,12 @@ func semRun(c *Ctx, flavour string, n int, prop string) {
 				continue
 			}
 			implOpt := runPlain(bcOpt, ugo.Map{}, args)
+			if strings.HasPrefix(implOpt, "out=timeout") {
+				// the step bound counts VM instructions; an optimized program executes fewer, so
+				// only the unoptimized run decides whether the case is within the bound
+				c.Count("skipped:step-limit-opt")
+				continue
+			}
 			if implOpt != implNo {
 				c.Violation(PropViolation{"C01", fmt.Sprintf("optimized (limit %d) and unoptimized runs differ: %s  vs  %s", lim, implOpt, implNo), src + "\nargs: " + strings.Join(encodeAll(args), ";"), "C01:opt-differs"})
 			}
